@@ -43,6 +43,9 @@ class ProcB(ProcA):
 
 
 OBJ1 = object()
+ZERO = 0             # importable names whose objects are falsy
+NOTHING = None
+EMPTY = ()
 CONST = 42
 MARKER_STRING = 'plain resolved string'
 
